@@ -313,6 +313,28 @@ class POP3CommandHandler:
         self.snapshot_uids = list(self.mbox.uids)
         self.msg_count = len(self.snapshot_msg_keys)
 
+        # The sizes are part of the snapshot: they must not change (eg: to 0)
+        # when an IMAP client expunges a message during the POP3 session.
+        #
+        for pop3_num in range(1, self.msg_count + 1):
+            self._get_msg_size(pop3_num)
+            await asyncio.sleep(0)
+
+    def _current_msg_key(self, pop3_num: int) -> int:
+        """
+        The MH message key the message with this POP3 number has *now*. The
+        folder may have been packed, or the key may have been reused for a
+        new message, since the snapshot was taken, so go via the UID.
+
+        Raises KeyError if the message no longer exists.
+        """
+        assert self.mbox is not None
+        uid = self.snapshot_uids[pop3_num - 1]
+        idx = self.mbox._uid_to_idx.get(uid)
+        if idx is None or self.mbox.uids[idx] != uid:
+            raise KeyError(f"message with uid {uid} is gone")
+        return self.mbox.msg_keys[idx]
+
     ##################################################################
     #
     def _get_msg_size(self, pop3_num: int) -> int:
@@ -322,8 +344,8 @@ class POP3CommandHandler:
         """
         if pop3_num not in self.msg_sizes:
             assert self.mbox is not None
-            msg_key = self.snapshot_msg_keys[pop3_num - 1]
             try:
+                msg_key = self._current_msg_key(pop3_num)
                 msg = self.mbox.get_msg(msg_key)
                 self.msg_sizes[pop3_num] = get_msg_size(msg)
             except (KeyError, FileNotFoundError):
@@ -414,8 +436,8 @@ class POP3CommandHandler:
             return True
 
         assert self.mbox is not None
-        msg_key = self.snapshot_msg_keys[n - 1]
         try:
+            msg_key = self._current_msg_key(n)
             msg = self.mbox.get_msg(msg_key)
         except (KeyError, FileNotFoundError):
             await self.client.push("-ERR message not available\r\n")
@@ -523,8 +545,8 @@ class POP3CommandHandler:
             return True
 
         assert self.mbox is not None
-        msg_key = self.snapshot_msg_keys[n - 1]
         try:
+            msg_key = self._current_msg_key(n)
             msg = self.mbox.get_msg(msg_key)
         except (KeyError, FileNotFoundError):
             await self.client.push("-ERR message not available\r\n")
